@@ -25,6 +25,7 @@ Expected(e) ==
       [] e.op = "local"  -> LocalPayload(e.u, e.p, e.idx)
       [] e.op = "varint" -> VarintDecode(e.bytes)
       [] e.op = "record" -> RecordDecode(e.bytes)
+      [] e.op = "ovfl"   -> OverflowPages(e.u, e.p, e.idx)
 
 HasSq(e) == "sq" \in DOMAIN e
 
